@@ -9,6 +9,7 @@ import (
 	"sort"
 	"strings"
 	"sync"
+	"sync/atomic"
 
 	"github.com/openziti/foundation/v2/errorz"
 	"github.com/openziti/storage/ast"
@@ -44,6 +45,8 @@ func newCWorld() *cWorld {
 		{Name: "name", Kind: world.KString}, {Name: "roles", Kind: world.KStringList}, {Name: "ver", Kind: world.KInt64P}, {Name: "tags", Kind: world.KMap}}})
 	w.places.AddScalarSymbols()
 	w.items.AddMapSymbol("tags", ast.NodeTypeAnyType, "tags")
+	w.items.MakeSymbolPublic("tags")
+	w.items.MakeSymbolPublic("name")
 	w.items.AddIdSymbol("id", ast.NodeTypeString)
 	w.nameIdx = w.items.AddUniqueIndex(w.items.AddSymbol("name", ast.NodeTypeString))
 	w.items.AddSymbol("ver", ast.NodeTypeInt64)
@@ -418,6 +421,8 @@ func C18(tier string) int {
 }
 
 // helperBodies are the package-level helpers named by the property; each returns a printable result.
+var c18Fresh int64
+
 func helperBodies(w *cWorld) map[string]func() string {
 	refErr := boltz.NewReferenceByIdError("a", "1", "b", "2", "f")
 	dupErr := &boltz.UniqueIndexDuplicateError{Field: "f", Value: "v", EntityType: "t"}
@@ -451,6 +456,30 @@ func helperBodies(w *cWorld) map[string]func() string {
 			s := w.items.GetSymbol("tags.j")
 			q, err := ast.Parse(w.items, `tags.j = 5`)
 			return fmt.Sprintf("%v/%v/%v", s != nil && s.GetName() == "tags.j", q, err)
+		},
+		// public-symbol resolution, each call with an element name of the public map symbol that was never asked before
+		"IsPublicSymbol/ValidateSymbolsArePublic(fresh map element)": func() string {
+			n := atomic.AddInt64(&c18Fresh, 1)
+			el := "tags.f" // identifiers of the grammar have no digits: spell the counter with letters
+			for ; n > 0; n /= 26 {
+				el += string(rune('a' + n%26))
+			}
+			q, err := ast.Parse(w.items, el+` = "a" and name != "zz"`)
+			if err != nil {
+				return "parse failed"
+			}
+			return fmt.Sprintf("%v/%v/%v/%v", w.items.IsPublicSymbol(el), w.items.IsPublicSymbol("ver"), boltz.ValidateSymbolsArePublic(q, w.items), len(w.items.GetPublicSymbols()) >= 2)
+		},
+		"GetPublicSymbols": func() string {
+			l := append([]string{}, w.items.GetPublicSymbols()...)
+			sort.Strings(l)
+			var known []string
+			for _, x := range l {
+				if !strings.HasPrefix(x, "tags.") {
+					known = append(known, x)
+				}
+			}
+			return strings.Join(known, ",")
 		},
 		"IsReferenceExistsError": func() string {
 			return fmt.Sprintf("%v/%v/%v", boltz.IsReferenceExistsError(refErr), boltz.IsReferenceExistsError(wrapped), boltz.IsReferenceExistsError(dupErr))
